@@ -24,6 +24,9 @@ fn main() {
         if prop == "C09" && args[2] == "--deep-child" {
             return props::nopanic::deep_child();
         }
+        if prop == "C09" && args[2] == "--exit-child" {
+            return props::nopanic::exit_child();
+        }
         if prop == "C10" && args[2] == "--emit-nonces" {
             return props::nonce::emit_first_nonces();
         }
